@@ -944,6 +944,10 @@ def sandwich(ctx, prop, tag, got_ids, must, may, q, scope, extra=None):
                               sorted(may)), extra or {})
 
 
+class IntSub(int):
+    """An int that is not exactly an int."""
+
+
 def probe(ctx, real, model, queries, want=("C05", "C06", "C13"),
           answers=None, judge=True):
     """Run every lookup for every query at every scope against the oracle.
@@ -958,6 +962,12 @@ def probe(ctx, real, model, queries, want=("C05", "C06", "C13"),
     scopes = list(model.secs) + list(model.mods) + list(model.irs)
     for q in queries:
         real.lookups_done += 1
+        # the same point handed over as an int subclass now and then (enum
+        # members and bools are ints too)
+        qa = q
+        if type(q) is int and (real.lookups_done + q) % 9 == 0:
+            qa = IntSub(q)
+            ctx.count("queries_as_int_subclass")
         if "C05" in want:
             for i in model.ivs:
                 o = O[i]
@@ -965,7 +975,7 @@ def probe(ctx, real, model, queries, want=("C05", "C06", "C13"),
                     kk = None if kind == "byte" else kind
                     for suffix, by_off in (("", False), ("_offset", True)):
                         name = "%s_blocks_%s%s" % (kind, how, suffix)
-                        got = ids(getattr(o, name)(q))
+                        got = ids(getattr(o, name)(qa))
                         must, may = model.blocks_expect(i, q, how, kk,
                                                         by_off)
                         sandwich(ctx, "C05", "interval." + name, got, must,
@@ -978,7 +988,7 @@ def probe(ctx, real, model, queries, want=("C05", "C06", "C13"),
                 for kind, how in BLOCK_METHODS:
                     kk = None if kind == "byte" else kind
                     name = "%s_blocks_%s" % (kind, how)
-                    got = ids(getattr(o, name)(q))
+                    got = ids(getattr(o, name)(qa))
                     must, may = model.blocks_expect(sc, q, how, kk)
                     sandwich(ctx, "C05", "%s.%s" % (
                         SCOPE_NAME[kd(sc)],
@@ -990,7 +1000,7 @@ def probe(ctx, real, model, queries, want=("C05", "C06", "C13"),
                 o = O[sc]
                 for how in ("on", "at"):
                     name = "byte_intervals_" + how
-                    got = ids(getattr(o, name)(q))
+                    got = ids(getattr(o, name)(qa))
                     must, may = model.intervals_expect(sc, q, how)
                     sandwich(ctx, "C06", "%s.%s" % (
                         SCOPE_NAME[kd(sc)],
@@ -999,7 +1009,7 @@ def probe(ctx, real, model, queries, want=("C05", "C06", "C13"),
                         answers.append((name, repr(q), sc, sorted(got)))
                     if kd(sc) != "S":
                         name = "sections_" + how
-                        got = ids(getattr(o, name)(q))
+                        got = ids(getattr(o, name)(qa))
                         must, may = model.sections_expect(sc, q, how)
                         sandwich(ctx, "C06", "%s.%s" % (
                             SCOPE_NAME[kd(sc)], name), got,
@@ -1014,7 +1024,7 @@ def probe(ctx, real, model, queries, want=("C05", "C06", "C13"),
                 for suffix, by_off in (("", False), ("_offset", True)):
                     name = "symbolic_expressions_at" + suffix
                     got = [(idof.get(id(a), "?"), off, real.lab(e))
-                           for a, off, e in getattr(o, name)(q)]
+                           for a, off, e in getattr(o, name)(qa)]
                     wantl = model.exprs_expect(i, q, by_off)
                     if judge:
                         ctx.count("oracle_comparisons")
@@ -1031,7 +1041,7 @@ def probe(ctx, real, model, queries, want=("C05", "C06", "C13"),
             for sc in scopes:
                 o = O[sc]
                 got = [(idof.get(id(a), "?"), off, real.lab(e))
-                       for a, off, e in o.symbolic_expressions_at(q)]
+                       for a, off, e in o.symbolic_expressions_at(qa)]
                 must, may = model.exprs_expect(sc, q)
                 sandwich(ctx, "C13", "%s.symbolic_expressions_at" % (
                     SCOPE_NAME[kd(sc)]),
